@@ -332,3 +332,62 @@ func (in *Interp) findMethod(T types.Type, name string) *ssa.Function {
 	}
 	return in.prog.MethodValue(sel)
 }
+
+// loadConstTable reads a table of constants at a symbolic index as a cascade over runs of equal
+// values (ite(idx <= hi_1, v_1, ite(idx <= hi_2, v_2, ...))), which is far smaller than one ite per entry.
+func (in *Interp) loadConstTable(p SymPtr) (Value, bool) {
+	n := len(p.Elems)
+	if n < 8 {
+		return nil, false
+	}
+	vals := make([]*smt.Term, n)
+	for k := range p.Elems {
+		t, ok := (*in.subCell(&p.Elems[k], p.Path)).(*smt.Term)
+		if !ok || !t.IsConst() {
+			return nil, false
+		}
+		vals[k] = t
+	}
+	// runs, last run first
+	res := vals[n-1]
+	for k := n - 2; k >= 0; k-- {
+		if vals[k] == vals[k+1] {
+			continue
+		}
+		// entries <= k belong to earlier runs
+		c := in.tb.Cmp(smt.OpUle, p.Idx, in.tb.BV(64, uint64(k)))
+		res = in.tb.Ite(c, vals[k], res)
+	}
+	// res currently selects by the *last* index of each run scanning downward: rebuild properly
+	// (the loop above nests so that the innermost test is the largest k; order the tests ascending)
+	res = vals[n-1]
+	type run struct {
+		hi int
+		v  *smt.Term
+	}
+	var runs []run
+	for k := 0; k < n; k++ {
+		if k == n-1 || vals[k] != vals[k+1] {
+			runs = append(runs, run{k, vals[k]})
+		}
+	}
+	res = runs[len(runs)-1].v
+	for i := len(runs) - 2; i >= 0; i-- {
+		c := in.tb.Cmp(smt.OpUle, p.Idx, in.tb.BV(64, uint64(runs[i].hi)))
+		res = in.tb.Ite(c, runs[i].v, res)
+	}
+	return res, true
+}
+
+// indexSub: first index of b in a, or -1 (as BV64).
+func (in *Interp) indexSub(a, b []*smt.Term) *smt.Term {
+	res := in.tb.BV(64, ^uint64(0))
+	for i := len(a) - len(b); i >= 0; i-- {
+		eq := in.tb.True
+		for j := range b {
+			eq = in.tb.And(eq, in.tb.Eq(a[i+j], b[j]))
+		}
+		res = in.tb.Ite(eq, in.tb.BV(64, uint64(i)), res)
+	}
+	return res
+}
